@@ -175,17 +175,45 @@ func ceilLog2(n int64) int {
 	return l
 }
 
-func (w *world) one(t *gen.Trace, B, W, S, H, total int64) {
-	w.setParams(B, W)
+type prm struct{ B, W int64 }
+
+// sessionCtxAt: a real context at height S whose state is a cache-wrapped branch of the live store in
+// which the two parameters have their session-start values (never written back).
+func (w *world) sessionCtxAt(base sdk.Context, S int64, ps prm) sdk.Context {
+	cc, _ := base.WithBlockHeader(headerAt(S)).CacheContext()
+	np := w.nk.GetParams(cc)
+	np.SessionBlockFrequency = ps.B
+	w.nk.SetParams(cc, np)
+	pp := w.k.GetParams(cc)
+	pp.ClaimSubmissionWindow = ps.W
+	w.k.SetParams(cc, pp)
+	return cc
+}
+
+// one: ps = parameters in the state at session start, pcl = live parameters when the claim is processed,
+// ppr = live parameters when the proof is processed.
+func (w *world) one(t *gen.Trace, ps, pcl, ppr prm, S, H, total int64) {
+	B, W := ps.B, ps.W
 	P := S + W*B
-	lo, hi := S-2, P+4
+	scanH := P
+	for _, x := range []prm{ps, pcl, ppr} {
+		for _, y := range []prm{ps, pcl, ppr} {
+			if S+x.W*y.B > scanH {
+				scanH = S + x.W*y.B
+			}
+		}
+	}
+	scanH++
+	lo, hi := S-2, scanH-1
 	if H+2 > hi {
 		hi = H + 2
 	}
 	if S+B+1 > hi {
 		hi = S + B + 1
 	}
+	w.setParams(pcl.B, pcl.W)
 	w.cacheHeights(lo, hi)
+	sdk.GlobalCtxCache.Add(fmt.Sprintf("%d", S), w.sessionCtxAt(w.base, S, ps))
 	nodeAddr := sdk.Address(w.nodePub.Address())
 	header := pc.SessionHeader{ApplicationPubKey: w.appPub.RawString(), Chain: chain, SessionBlockHeight: S}
 	pc.SetSession(pc.Session{SessionKey: pc.SessionKey(pc.Hash([]byte("k"))), SessionHeader: header, SessionNodes: pc.SessionNodes{nodeAddr}}, w.cache)
@@ -209,34 +237,13 @@ func (w *world) one(t *gen.Trace, B, W, S, H, total int64) {
 	mature := try(func() string { return fmt.Sprint(w.k.ClaimIsMature(w.ctxAt(H), S)) })
 	// 3. which block seeds the leaf selection, and the selected leaf (ValidateProof at height P+1)
 	var asked []int64
-	proofRes, idx := w.scanProof(w.ctxAt(P+1), &asked, claim, header, S, P, total)
-	req := int64(-1)
-	if len(asked) == 1 {
-		req = asked[0]
-	}
-	// the hash the leaf selection must have used, if the entropy came from header `req`
-	hash8, seedHex, usedBlock := "-", "-", int64(-1)
-	if proofRes == "ok" {
-		// identify the block whose hash was returned for `req`
-		got, _ := recCtx{baseCtx: w.ctxAt(P + 1), asked: &[]int64{}}.GetPrevBlockHash(req)
-		for b := lo - 2; b <= hi+2; b++ {
-			if hex.EncodeToString(blockHash(b)) == hex.EncodeToString(got) {
-				usedBlock = b
-			}
-		}
-		seed, _ := json.Marshal(struct {
-			BlockHash string
-			Header    string
-		}{hex.EncodeToString(got), header.HashString()})
-		seedHex = hex.EncodeToString(seed)
-		hash8 = hex.EncodeToString(pc.Hash(seed)[:8])
-	}
-	// 4. the same proof path at the claim height H itself, in an honest world: the context cache holds only
+	proofRes, idx := "", int64(-1)
+	// 4. (before the parameters move on) the same proof path at the claim height H itself, in an honest world: the context cache holds only
 	// contexts of past heights and the block store has no block >= H (a proof sent right behind its claim)
 	earlyRes, earlyReq, earlyUsed, earlyIdx := "skip", int64(-1), int64(-1), int64(-1)
-	if H >= S && H >= 1 {
+	if H > S && H >= 1 { // at H = S the session state IS the live state; below S there is no session state yet
 		var easked []int64
-		ectx := w.earlyCtx(H, S)
+		ectx := w.earlyCtx(H, S, ps)
 		earlyRes, earlyIdx = w.scanProof(ectx, &easked, claim, header, S, P, total)
 		if len(easked) >= 1 {
 			earlyReq = easked[len(easked)-1]
@@ -250,8 +257,33 @@ func (w *world) one(t *gen.Trace, B, W, S, H, total int64) {
 			}
 		}
 	}
-	t.Line("win", claimRes == "ok", "win %d %d %d %d %d %s %s %s %s => %s %s %s %d %d %d %s %d %d %d %s",
-		B, W, S, H, total, hex.EncodeToString(blockHash(usedBlock)), header.HashString(), seedHex, hash8,
+	// 5. the live parameters move to their proof-time values; ValidateProof at a height where every candidate
+	// selecting block exists
+	w.setParams(ppr.B, ppr.W)
+	proofRes, idx = w.scanProof(w.ctxAt(scanH), &asked, claim, header, S, P, total)
+	req := int64(-1)
+	if len(asked) == 1 {
+		req = asked[0]
+	}
+	// the hash the leaf selection must have used, if the entropy came from header `req`
+	hash8, seedHex, usedBlock := "-", "-", int64(-1)
+	if proofRes == "ok" {
+		// identify the block whose hash was returned for `req`
+		got, _ := recCtx{baseCtx: w.ctxAt(scanH), asked: &[]int64{}}.GetPrevBlockHash(req)
+		for b := lo - 2; b <= hi+2; b++ {
+			if hex.EncodeToString(blockHash(b)) == hex.EncodeToString(got) {
+				usedBlock = b
+			}
+		}
+		seed, _ := json.Marshal(struct {
+			BlockHash string
+			Header    string
+		}{hex.EncodeToString(got), header.HashString()})
+		seedHex = hex.EncodeToString(seed)
+		hash8 = hex.EncodeToString(pc.Hash(seed)[:8])
+	}
+	t.Line("win", claimRes == "ok", "win %d %d %d %d %d %d %d %d %d %s %s %s %s => %s %s %s %d %d %d %s %d %d %d %s",
+		ps.B, ps.W, pcl.B, pcl.W, ppr.B, ppr.W, S, H, total, hex.EncodeToString(blockHash(usedBlock)), header.HashString(), seedHex, hash8,
 		claimRes, mature, strings.ReplaceAll(proofRes, " ", "_"), req, usedBlock, idx,
 		strings.ReplaceAll(earlyRes, " ", "_"), earlyReq, earlyUsed, earlyIdx, "end")
 }
@@ -317,7 +349,7 @@ func (w *world) scanProof(base sdk.Context, asked *[]int64, claim pc.MsgClaim, h
 
 // earlyCtx: a context at height H whose world is honest: the context cache knows past heights only and
 // the (real, empty) block store has no block at all, so nothing about heights > H can be looked up.
-func (w *world) earlyCtx(H, S int64) sdk.Context {
+func (w *world) earlyCtx(H, S int64, ps prm) sdk.Context {
 	late := sdk.GlobalCtxCache
 	sdk.InitCtxCache(1024)
 	ctx := sdk.NewContext(w.base.MultiStore(), headerAt(H), false, log.NewNopLogger()).WithBlockStore(tmstore.NewBlockStore(dbm.NewMemDB()))
@@ -327,6 +359,9 @@ func (w *world) earlyCtx(H, S int64) sdk.Context {
 	}
 	for h := lo; h < H; h++ {
 		sdk.GlobalCtxCache.Add(fmt.Sprintf("%d", h), ctx.WithBlockHeader(headerAt(h)))
+	}
+	if S < H && S >= lo {
+		sdk.GlobalCtxCache.Add(fmt.Sprintf("%d", S), w.sessionCtxAt(ctx, S, ps))
 	}
 	sdk.GlobalCtxCache = late
 	return ctx
@@ -449,12 +484,49 @@ func main() {
 		}
 		total := int64(1 + r.Intn(40))
 		P := S + W*B
+		// governance may change the two parameters between session start, claim and proof
+		ps := prm{B, W}
+		pcl, ppr := ps, ps
+		vary := func(p prm) prm {
+			q := p
+			if r.Bool() {
+				q.W = p.W + int64(r.Intn(3)) - 1
+				if q.W < 1 {
+					q.W = 2
+				}
+				if q.W == p.W {
+					q.W = p.W + 1
+				}
+			} else {
+				q.B = p.B + int64(r.Intn(3)) - 1
+				if q.B < 1 {
+					q.B = 2
+				}
+				if q.B == p.B {
+					q.B = p.B + 1
+				}
+			}
+			return q
+		}
+		switch c := r.Intn(20); {
+		case c < 5: // changed after the claim, before the proof
+			ppr = vary(ps)
+		case c < 8: // changed after session start, before the claim (and kept)
+			pcl = vary(ps)
+			ppr = pcl
+		case c < 9:
+			pcl = vary(ps)
+			ppr = vary(pcl)
+		}
+		if pcl.W*pcl.B > W*B {
+			P = S + pcl.W*pcl.B
+		}
 		// every height in and around the window: from two before the session end to three after P
 		for H := S + B - 3; H <= P+3 && t.Lines < *n; H++ {
 			if H < 1 {
 				continue
 			}
-			w.one(t, B, W, S, H, total)
+			w.one(t, ps, pcl, ppr, S, H, total)
 		}
 	}
 	t.Close(nil)
